@@ -1374,7 +1374,7 @@ func (ex *Exec) step(st *State, b *ssa.BasicBlock, i int, in ssa.Instruction) bo
 		switch t := in.X.Type().Underlying().(type) {
 		case *types.Slice:
 			ex.safe(st, in, "index", mkAnd(app(SBool, "<=", tZero, idx.T), app(SBool, "<", idx.T, sLen(x.T))), "index out of range")
-			set(in, &Val{Typ: in.Type(), Addr: &Addr{Kind: aElem, Base: sArr(x.T), Idx: ex.define(st, "ix", addT(sOff(x.T), idx.T)), Elem: t.Elem()}})
+			set(in, &Val{Typ: in.Type(), Addr: &Addr{Kind: aElem, Base: sArr(x.T), Idx: ex.define(st, "ix", idxT(sOff(x.T), idx.T)), Elem: t.Elem()}})
 		case *types.Pointer:
 			arr := t.Elem().Underlying().(*types.Array)
 			ex.safe(st, in, "index", mkAnd(app(SBool, "<=", tZero, idx.T), app(SBool, "<", idx.T, intLit(arr.Len()))), "array index out of range")
